@@ -17,7 +17,9 @@ import (
 
 	"github.com/libp2p/go-libp2p/core/peer"
 
+	"github.com/obolnetwork/charon/app/log"
 	"github.com/obolnetwork/charon/cluster"
+	"github.com/obolnetwork/charon/dkg/bcast"
 	"github.com/obolnetwork/charon/dkg/pedersen"
 	"github.com/obolnetwork/charon/dkg/share"
 	"github.com/obolnetwork/charon/tbls"
@@ -37,8 +39,18 @@ type Ceremony struct {
 	N          int         `json:"n"`
 	T          int         `json:"t"`
 	Vals       int         `json:"vals"`
+	Stale      *Stale      `json:"stale_session,omitempty"` // second ceremony on the same hosts + straggler messages of an abandoned first one
 	Err        string      `json:"err,omitempty"`
 	Validators []Validator `json:"validators"`
+}
+
+// Stale describes the straggler: node Straggler (0-based) still runs a board of the abandoned session and publishes
+// Count validator public key shares of it to node Victim only, before (or while) the new ceremony runs.
+type Stale struct {
+	Straggler int  `json:"straggler"`
+	Victim    int  `json:"victim"`
+	Count     int  `json:"count"`
+	During    bool `json:"during"` // sent while the new ceremony is running instead of before it starts
 }
 
 type Violation struct {
@@ -89,11 +101,44 @@ func run(t *testing.T, c *Ceremony) ([][]share.Share, error) {
 		}
 	}()
 	pedersen.ConnectTestNodes(t, nodes)
+	sendStale := func() {}
+	if c.Stale != nil {
+		// Abandoned attempt (old session): the straggler still has a live board of it; only its link to the victim matters.
+		old := testutil.RandomArray32()
+		st, vi := nodes[c.Stale.Straggler], nodes[c.Stale.Victim]
+		oldPeerMap := map[peer.ID]cluster.NodeIdx{st.NodeHost.ID(): st.NodeIdx, vi.NodeHost.ID(): vi.NodeIdx}
+		oldConfig := pedersen.NewConfig(st.NodeHost.ID(), oldPeerMap, c.T, old[:], 3*time.Second, nil)
+		oldBoard := pedersen.NewBoard(log.WithTopic(context.Background(), "old-attempt"), st.NodeHost, oldConfig,
+			bcast.New(st.NodeHost, peers, st.NodeSecret, old[:]))
+		sendStale = func() {
+			for k := 0; k < c.Stale.Count; k++ {
+				sk, err := tbls.GenerateSecretKey()
+				if err != nil {
+					t.Fatal(err)
+				}
+				pk, err := tbls.SecretToPublicKey(sk)
+				if err != nil {
+					t.Fatal(err)
+				}
+				_ = oldBoard.BroadcastValidatorPubKeyShare(context.Background(), pk[:])
+			}
+		}
+	}
 	for i := range nodes {
 		nodes[i].InitBoard(t, c.T, peers, peerMap, session[:])
 	}
-	ctx, cancel := context.WithTimeout(context.Background(), 60*time.Second)
+	if c.Stale != nil && !c.Stale.During {
+		sendStale()
+		time.Sleep(300 * time.Millisecond) // the send is asynchronous: let it reach (and be handled by) the victim's new board
+	}
+	ctx, cancel := context.WithTimeout(context.Background(), 30*time.Second)
 	defer cancel()
+	if c.Stale != nil && c.Stale.During {
+		go func() {
+			time.Sleep(5 * time.Millisecond)
+			sendStale()
+		}()
+	}
 	errs := make([]error, c.N)
 	res := make([][]share.Share, c.N)
 	var wg sync.WaitGroup
@@ -223,8 +268,8 @@ func TestGen(t *testing.T) {
 		if replay.Algo != "pedersen" {
 			t.Skip("not a pedersen replay")
 		}
-		for k := 0; k < 2; k++ {
-			todo = append(todo, Ceremony{Algo: "pedersen", N: replay.N, T: replay.T, Vals: replay.Vals})
+		for k := 0; k < 3; k++ {
+			todo = append(todo, Ceremony{Algo: "pedersen", N: replay.N, T: replay.T, Vals: replay.Vals, Stale: replay.Stale})
 		}
 	} else {
 		type cfg struct{ n, t, v int }
@@ -250,11 +295,26 @@ func TestGen(t *testing.T) {
 		for _, c := range cfgs {
 			todo = append(todo, Ceremony{Algo: "pedersen", N: c.n, T: c.t, Vals: c.v})
 		}
+		// repeated ceremonies on the same hosts with a straggler of the abandoned one
+		r := hx.Rand()
+		stales := 4
+		if hx.Thorough() {
+			stales = 16
+		}
+		for k := 0; k < stales; k++ {
+			n := 3 + k%3
+			p := r.Perm(n)
+			todo = append(todo, Ceremony{Algo: "pedersen", N: n, T: 2 + r.Intn(n-1), Vals: 1,
+				Stale: &Stale{Straggler: p[0], Victim: p[1], Count: 1, During: k%4 == 3}})
+		}
 	}
 	for i := range todo {
 		c := &todo[i]
 		c.ID = i
 		out.Dist[fmt.Sprintf("n%d", c.N)]++
+		if c.Stale != nil {
+			out.Dist["stale_session"]++
+		}
 		if 2*c.T <= c.N {
 			out.Dist["t_at_most_half_n"]++
 		} else if c.T == c.N {
